@@ -49,7 +49,7 @@ func main() {
 	methodsOf := methodDecls(files) // "recv.name" -> decl ; plain funcs under ".name"
 
 	fmt.Println("Require Import Nib.C08.Model.")
-	fmt.Println("From Coq Require Import String List ZArith. Import ListNotations. Open Scope string_scope. Open Scope Z_scope.")
+	fmt.Println("From Coq Require Import String List ZArith. Import ListNotations. Local Open Scope string_scope. Local Open Scope Z_scope.")
 
 	isMut := mutationTable(files, consts)
 
